@@ -14,6 +14,13 @@
 // are scripted net.Conn fakes (world.go) whose Read / Write calls are the gates at which the
 // model's copier steps are released (gated mode), or which run freely (free mode); the mapping
 // (bandwidth limit) comes from a scripted CloudControlAPI.
+// The two legs of a tunnel arrive in every way the server knows (attach.go): the source by a call of
+// startSourceBridge or through the packet path (Handshake, TunnelOpen -> handleSourceBridge); the target by
+// SetTargetConnection, through the packet path (-> handleExistingBridge), from another node through the
+// CrossNodeListener ("xnode"), or - the other cross-node role - at THIS server while the bridge lives on the
+// source's node ("fwd": forwardToSourceNode / runCrossNodeDataForwardDedicated; the driver plays the source's
+// node). Scripts with a hold step let the tunnel outlive the heartbeat timeout / the connection manager's
+// idle timeout; statstall makes the statistics backend (cloud control) hang.
 // The payload is a counter stream per direction, so every write of the bridge to an end is a
 // Deliver(dir, offset, len, equal) observation. Recorded traces are judged by spec/BridgeTrace.tla.
 package main
@@ -55,6 +62,7 @@ const raceLoops = 200
 type genLine struct {
 	Lim   string `json:"lim"`
 	Steps []step `json:"steps"`
+	Src   string `json:"src,omitempty"` // how the source leg arrived: "" (= direct: startSourceBridge called) | "pkt"
 }
 
 // (the field order of genLine / step is the canonical form that is hashed)
@@ -100,6 +108,7 @@ type shape struct {
 	paceClose         bool // an end closes / fails while a chunk read from the other end is being paced out
 	routeFail         bool // the routing store fails deletes
 	statCase          bool // the statistics backend stalls, and the end that then closes has sent before
+	statFlow          bool // a chunk is written while the statistics backend does not answer (the bytes must still get through)
 	hold              bool // the tunnel outlives the heartbeat timeout
 	tFault            bool // a fault on the target's connection that only a fake connection can play
 	stallCase         bool // an end stops draining, the other end has sent and then closes / fails
@@ -155,6 +164,7 @@ func shapeOf(g *genLine) shape {
 			}
 		case st.A == "W":
 			pacing = false
+			s.statFlow = s.statFlow || statStalled
 		case (st.A == "close" || st.A == "error") && pacing:
 			s.paceClose = true
 		}
@@ -191,6 +201,30 @@ func shapeOf(g *genLine) shape {
 	return s
 }
 
+// withStatStall: the same script with the statistics backend going down just before the first end closes
+// or fails (a step the model allows there: StatStall changes nothing a copier does). Only for scripts in
+// which the target is attached by then and bytes have moved (there is a last traffic report to make).
+func withStatStall(g *genLine) ([]step, bool) {
+	attached, sent := false, false
+	for i, st := range g.Steps {
+		switch st.A {
+		case "attach":
+			attached = true
+		case "send":
+			sent = true
+		case "statstall", "statresume", "extclose", "timeout":
+			return nil, false
+		case "close", "error":
+			if !attached || !sent {
+				return nil, false
+			}
+			out := append(append(append([]step{}, g.Steps[:i]...), step{A: "statstall"}), g.Steps[i:]...)
+			return out, true
+		}
+	}
+	return nil, false
+}
+
 // keepPermille: share of the enumerated scripts outside the core set that is driven (seeded choice).
 func keepPermille(env *fw.Env, src string) uint64 {
 	q := map[string]uint64{"gen:S1": 6, "gen:S2": 10, "gen:repl": 30, "gen:S2full": 10, "gen:slow": 1000}[src]
@@ -213,6 +247,9 @@ func expand(env *fw.Env, src string, raw json.RawMessage) []json.RawMessage {
 	if err := json.Unmarshal(raw, &g); err != nil {
 		panic(err)
 	}
+	if g.Src == "direct" {
+		g.Src = "" // (the canonical form of the scripts that existed before source kinds is unchanged)
+	}
 	// TLC's ToJson does not fix the order of record fields: hash (and de-duplicate) the canonical form
 	canon := string(fw.MustJSON(g))
 	seenMu.Lock()
@@ -232,12 +269,18 @@ func expand(env *fw.Env, src string, raw json.RawMessage) []json.RawMessage {
 		src = map[bool]string{true: "gen:slow", false: "gen:bidi"}[g.Lim == "slow"]
 	case "gen:attach":
 		k := []string{"pkt", "xnode"}[(h>>14)%2] // a script that leaves the attach to the finishing phase
+		if (h>>16)%3 == 0 {
+			k = "fwd"
+		}
 		for _, st := range g.Steps {
 			if st.A == "attach" {
 				k = st.K
 			}
 		}
 		src = "gen:" + k
+		if k == "fwd" && g.Src != "" {
+			return nil // (no source leg on the target's node)
+		}
 	}
 	if s.timeout {
 		// Start's 30 s wait for the target: one script, thorough tier only
@@ -280,10 +323,10 @@ func expand(env *fw.Env, src string, raw json.RawMessage) []json.RawMessage {
 		b := beh{Lim: g.Lim, Steps: env, Mode: "free", Via: []string{"conn", "stream"}[(h>>8)%2],
 			FinE: []string{"S", "T"}[(h>>9)%2], FinK: "close", Big: 2 * copyBuf}
 		return []json.RawMessage{fw.MustJSON(b)}
-	} else if src == "gen:xnode" {
-		// the target on another node: free running only (its end is a TCP connection), one script per
-		// order of the environment steps, nothing a real socket cannot be told to do
-		if s.tFault || s.replace || s.timeout || !s.attach {
+	} else if src == "gen:xnode" || src == "gen:fwd" {
+		// the target on another node / this server as the target's node: free running only (one end is a
+		// TCP connection), one script per order of the environment steps, nothing a real socket cannot be told to do
+		if s.tFault || s.replace || s.timeout || !s.attach || s.fault {
 			return nil
 		}
 		var steps []step
@@ -292,7 +335,10 @@ func expand(env *fw.Env, src string, raw json.RawMessage) []json.RawMessage {
 				steps = append(steps, st)
 			}
 		}
-		key := "xnode-env:" + string(fw.MustJSON(steps))
+		key := src + g.Src + "-env:" + string(fw.MustJSON(steps))
+		if src == "gen:xnode" && g.Src == "" {
+			key = "xnode-env:" + string(fw.MustJSON(steps))
+		}
 		seenMu.Lock()
 		dup := seen[key]
 		seen[key] = true
@@ -300,13 +346,21 @@ func expand(env *fw.Env, src string, raw json.RawMessage) []json.RawMessage {
 		if dup || (env.Tier != "thorough" && len(steps) > 4) {
 			return nil
 		}
-		b := beh{Lim: g.Lim, Steps: steps, Mode: "free", Via: []string{"conn", "stream"}[(h>>8)%2], AttachK: "xnode",
-			FinE: []string{"S", "T"}[(h>>9)%2], FinK: []string{"close", "error"}[(h>>10)%2], Drain: (h>>11)%2 == 0, Big: 2 * copyBuf}
-		return []json.RawMessage{fw.MustJSON(b)}
-	} else if src == "gen:pkt" {
-		// the target through the packet path; the scripts that outlive the heartbeat timeout always
-		// (they cost a second each), a share of the others
-		if s.timeout || (!s.hold && h%1000 >= 150) || (s.hold && env.Tier != "thorough" && (len(g.Steps) > 5 || s.ending)) {
+		b := beh{Lim: g.Lim, Steps: steps, Mode: "free", Via: []string{"conn", "stream"}[(h>>8)%2], AttachK: src[4:], Src: g.Src,
+			FinE: []string{"S", "T"}[(h>>9)%2], FinK: []string{"close", "error"}[(h>>10)%2], Drain: (h>>11)%2 == 0, Big: 2 * copyBuf,
+			Frag: src == "gen:xnode" && (h>>18)%2 == 0}
+		out := []json.RawMessage{fw.MustJSON(b)}
+		if st, ok := withStatStall(&genLine{Steps: steps}); ok && (h>>17)%2 == 0 {
+			b.Steps = st
+			out = append(out, fw.MustJSON(b))
+		}
+		return out
+	} else if src == "gen:pkt" || src == "gen:srcpkt" {
+		// the target (gen:pkt) / the source (gen:srcpkt; both when the script says src = pkt) through the
+		// packet path; the scripts that outlive the heartbeat timeout always (they cost a second each), a
+		// share of the others
+		if s.timeout || (!s.hold && h%1000 >= 150) || (s.hold && env.Tier != "thorough" && (len(g.Steps) > 5 || s.ending)) ||
+			(s.hold && env.Tier == "thorough" && len(g.Steps) > 5 && h%1000 >= 50) {
 			return nil
 		}
 	} else if src == "gen:S1" && s.plain && endsWithEnding(&g) && (g.Lim == "none" || env.Tier == "thorough") &&
@@ -315,6 +369,29 @@ func expand(env *fw.Env, src string, raw json.RawMessage) []json.RawMessage {
 			(s.stallCase && len(g.Steps) <= 5 && (env.Tier == "thorough" || onlyClasses(&g, "one", "Bp1")))) {
 		// the minimal scripts of two environment faults, always: the routing store refuses deletes when
 		// the tunnel is torn down; an end that does not drain while the other end sends and goes away
+	} else if src == "gen:S1" && s.statFlow && s.attach && !s.ending && s.lastGate && s.nR == s.want && len(g.Steps) <= 6 &&
+		(g.Lim == "none" || env.Tier == "thorough") && onlyClasses(&g, "one", "Bp1") {
+		// the statistics backend does not answer while bytes flow: the pipe must not depend on it. Gated as
+		// generated, and free running with the write blown up to 1 MiB + 32 KiB + 1 (the copy loop's batch counters)
+		bigger := beh{Lim: g.Lim, Mode: "free", Via: []string{"conn", "stream"}[(h>>8)%2], FinE: []string{"S", "T"}[(h>>9)%2],
+			FinK: "close", Drain: true, Big: 1 << 20, Src: g.Src}
+		bigger.Steps = []step{{A: "statstall"}} // (free running: the backend is down before the bytes start to flow)
+		for _, st := range g.Steps {
+			switch st.A {
+			case "send":
+				st.C = "big"
+				bigger.Steps = append(bigger.Steps, st)
+				st.C = "Bp1" // ... and more behind it: the thresholds are crossed in mid-stream
+				bigger.Steps = append(bigger.Steps, st)
+			case "attach":
+				bigger.Steps = append([]step{st}, bigger.Steps...) // (a stalled backend before the attach delays the set-up, which is not judged)
+			case "statstall", "R", "W":
+			default:
+				bigger.Steps = append(bigger.Steps, st)
+			}
+		}
+		gated := beh{Lim: g.Lim, Steps: g.Steps, Mode: "gated", Via: bigger.Via, FinE: bigger.FinE, FinK: "close", Drain: true, Big: 2 * copyBuf, Src: g.Src}
+		return []json.RawMessage{fw.MustJSON(gated), fw.MustJSON(bigger)}
 	} else if s.dataErr && s.dataErrLast && src == "gen:S1" && len(g.Steps) <= 5 {
 		// reads that return bytes together with an error: the minimal scripts (one write, the fault,
 		// the read that takes the bytes) at a higher rate
@@ -326,7 +403,7 @@ func expand(env *fw.Env, src string, raw json.RawMessage) []json.RawMessage {
 	}
 	paced := g.Lim == "tiny" || g.Lim == "edge" || g.Lim == "slow"
 	mk := func(mode string, salt uint64) json.RawMessage {
-		b := beh{Lim: g.Lim, Steps: g.Steps, Mode: mode, Route: s.routeFail || (h>>13)%4 == 0,
+		b := beh{Lim: g.Lim, Steps: g.Steps, Mode: mode, Route: s.routeFail || (h>>13)%4 == 0, Src: g.Src,
 			AttachK: map[string]string{"gen:pkt": "pkt"}[src],
 			Via:     []string{"conn", "stream"}[(h>>8+salt)%2],
 			FinE:    []string{"S", "T"}[(h>>9+salt)%2],
@@ -339,13 +416,19 @@ func expand(env *fw.Env, src string, raw json.RawMessage) []json.RawMessage {
 		return fw.MustJSON(b)
 	}
 	out := []json.RawMessage{mk("gated", 0)}
+	if st, ok := withStatStall(&g); ok && (src == "gen:pkt" || src == "gen:srcpkt") && (h>>17)%2 == 0 {
+		var b beh
+		json.Unmarshal(out[0], &b)
+		b.Steps = st
+		out = append(out, fw.MustJSON(b))
+	}
 	// the same script without gates (the copiers race the script), for a share of them
 	if core || (h>>12)%3 == 0 || g.Lim == "slow" {
 		out = append(out, mk("free", 1))
 		// Scripts in which an end is already closed / failed when the target attaches make one copier
 		// finish (and Bridge.Close run) while the other goroutine is still starting: a scheduling race
 		// no gate can pin down. They are executed raceLoops times (cheap: unpaced, ~1 ms each).
-		if s.endBeforeAttach && !paced && src != "gen:pkt" {
+		if s.endBeforeAttach && !paced && src != "gen:pkt" && src != "gen:srcpkt" {
 			var b beh
 			json.Unmarshal(out[len(out)-1], &b)
 			b.Loops = raceLoops
@@ -480,10 +563,13 @@ func main() {
 		ModelJobs: func(env *fw.Env) []fw.TLCJob {
 			mc := func(name, cfg, maxs, repl, faults, c string) fw.TLCJob {
 				return fw.TLCJob{Name: name, Module: "Bridge", Cfg: cfg, Timeout: 14 * time.Minute,
-					Consts: map[string]string{"MAXS": maxs, "REPL": repl, "FAULTS": faults, "CLS": c, "AK": `{"local"}`, "HOLD": "FALSE"}}
+					Consts: map[string]string{"MAXS": maxs, "REPL": repl, "FAULTS": faults, "CLS": c, "AK": `{"local"}`, "HOLD": "FALSE", "SK": `{"direct"}`}}
 			}
-			kinds := func(j fw.TLCJob) fw.TLCJob { // every way of attaching the target, tunnels that outlive the heartbeat timeout
-				j.Consts["AK"], j.Consts["HOLD"] = `{"local", "pkt", "xnode"}`, "TRUE"
+			kinds := func(j fw.TLCJob) fw.TLCJob { // every way the two legs arrive, tunnels that outlive the heartbeat / idle timeouts
+				j.Consts["AK"], j.Consts["HOLD"], j.Consts["SK"] = `{"local", "pkt", "xnode", "fwd"}`, "TRUE", `{"direct", "pkt"}`
+				if env.Tier != "thorough" || j.Cfg == "Bridge_live.cfg" || j.Cfg == "Bridge_live_fixed.cfg" {
+					j.Consts["SK"] = `{"pkt"}` // (with no leg left registered the source kind changes nothing: one of them)
+				}
 				return j
 			}
 			cov := func(j fw.TLCJob) fw.TLCJob { j.Coverage = true; return j } // action coverage (vacuity guard) in the evidence
@@ -497,7 +583,7 @@ func main() {
 					mc("mc:as-found(S=3)", "Bridge_mc.cfg", "3", "FALSE", "TRUE", cls),
 					cov(mc("mc:as-needed(S=2,replace)", "Bridge_fixed.cfg", "2", "TRUE", "TRUE", cls)),
 					mc("live:as-found(S=1,replace)", "Bridge_live.cfg", "1", "TRUE", "TRUE", cls),
-					mc("live:as-found(S=2)", "Bridge_live.cfg", "2", "FALSE", "TRUE", cls),
+					mc("live:as-found(S=2,{1,32K+1})", "Bridge_live.cfg", "2", "FALSE", "TRUE", small),
 					mc("live:as-needed(S=1,replace)", "Bridge_live_fixed.cfg", "1", "TRUE", "TRUE", cls),
 					mc("live:as-needed(S=2,{1,32K+1})", "Bridge_live_fixed.cfg", "2", "FALSE", "TRUE", small),
 					kinds(mc("mc:as-found(S=1,attach kinds)", "Bridge_mc.cfg", "1", "FALSE", "TRUE", cls)),
@@ -522,7 +608,7 @@ func main() {
 			}
 			gen := func(name, maxs, lims, c, faults, repl, ext string) fw.TLCJob {
 				return fw.TLCJob{Name: name, Module: "Bridge", Cfg: "Bridge_gen.cfg", Workers: 1, // one worker: breadth-first order (and so the script chosen per state) is reproducible
-					Consts: map[string]string{"MAXS": maxs, "LIMS": lims, "CLS": c, "FAULTS": faults, "REPL": repl, "EXT": ext, "DEVLIM": devlim, "MAXSLOW": "5", "AK": `{"local"}`, "HOLD": "FALSE"}}
+					Consts: map[string]string{"MAXS": maxs, "LIMS": lims, "CLS": c, "FAULTS": faults, "REPL": repl, "EXT": ext, "DEVLIM": devlim, "MAXSLOW": "5", "AK": `{"local"}`, "HOLD": "FALSE", "SK": `{"direct"}`}}
 			}
 			sim := func(n int) fw.TLCJob {
 				j := gen("sim:S3", "3", all, cls, "TRUE", "FALSE", "TRUE")
@@ -548,16 +634,34 @@ func main() {
 			}
 			// the target through the packet path / from another node; tunnels that outlive the heartbeat timeout
 			att := gen("gen:attach", map[bool]string{true: "2", false: "1"}[env.Tier == "thorough"], `{"none"}`, `{"one", "Bp1"}`, "FALSE", "FALSE", "FALSE")
-			att.Consts["AK"], att.Consts["HOLD"] = `{"pkt", "xnode"}`, "TRUE"
+			att.Consts["AK"], att.Consts["HOLD"], att.Consts["SK"] = `{"pkt", "xnode", "fwd"}`, "TRUE", `{"direct", "pkt"}`
+			// the source through the packet path, the target attached directly
+			spk := gen("gen:srcpkt", "1", `{"none"}`, `{"one", "Bp1"}`, "FALSE", "FALSE", "FALSE")
+			spk.Consts["HOLD"], spk.Consts["SK"] = "TRUE", `{"pkt"}`
 			// 1 KiB/s: an end goes away during the pacing of a chunk; 16383 B/s: both directions pace at once
 			// (S: 64 KiB and T: 32 KiB or the reverse, ~4 s)
 			paced := gen("gen:paced", "2", `{"tiny", "slow"}`, `{"B", "big"}`, "FALSE", "FALSE", "FALSE")
 			paced.Consts["MAXSLOW"] = "9"
-			jobs = append(jobs, att, paced)
+			jobs = append(jobs, att, spk, paced)
 			if env.Tier == "thorough" {
 				return append(jobs, gen("gen:S2full", "2", all, cls, "FALSE", "FALSE", "FALSE"), sim(40))
 			}
 			return jobs // (random deep scripts: thorough tier)
+		},
+		ExtraBeh: func(env *fw.Env) []json.RawMessage {
+			// thorough: tunnels that outlive the 30 s constants of the code (Start's ready timer, the routing
+			// entry's TTL, the traffic-report tick), both ends talking all the while - every way the legs arrive
+			if env.Tier != "thorough" {
+				return nil
+			}
+			var out []json.RawMessage
+			for i, c := range [][2]string{{"", ""}, {"", "pkt"}, {"pkt", "pkt"}, {"pkt", "xnode"}, {"", "fwd"}} {
+				k := step{A: "attach", K: c[1]}
+				out = append(out, fw.MustJSON(beh{Lim: "none", Mode: "free", Via: []string{"conn", "stream"}[i%2], Src: c[0], Long: true, Route: true,
+					FinE: []string{"S", "T"}[i%2], FinK: "close", Drain: true, Big: 2 * copyBuf,
+					Steps: []step{{A: "send", E: "S", C: "Bp1"}, k, {A: "hold"}, {A: "send", E: "T", C: "Bp1"}, {A: "send", E: "S", C: "one"}}}))
+			}
+			return out
 		},
 		Expand:      expand,
 		Drive:       drive,
@@ -578,6 +682,9 @@ func main() {
 			"faults, third-party close), <=2 writes ({1, 32K+1}) and source replacement; the core set (every limit class x size class x direction, " +
 			"attach before/after the first bytes, read and written gate by gate) always, a seeded share of the rest, plus random deep scripts (<=3 writes); " +
 			"each gated script also free running for a share (free-running scripts in which an end is already closed or failed when the target attaches are executed 200 times: goroutine-start race); " +
+			"the target attached directly (SetTargetConnection), through the packet path (Handshake, TunnelOpen -> handleExistingBridge), from another node (CrossNodeListener, free running) and " +
+			"with this server as the target's node (forwardToSourceNode, free running), the source leg by startSourceBridge or through the packet path (handleSourceBridge): one script per (state, step) with <=1 write, " +
+			"the scripts that outlive the heartbeat / idle timeouts always; the minimal scripts in which a chunk is written while the statistics backend does not answer, gated and free running with 1 MiB + 32 KiB + 1 bytes; " +
 			"non-trivial = a trace with a delivery or closure observation",
 		Assumptions: []string{
 			"model buffer BUF=3 stands for the 32 KiB copy buffer; size classes map to {1, 32K-1, 32K, 32K+1, 64K (gated or paced) / 1 MiB (free, unpaced)} bytes",
@@ -594,9 +701,14 @@ func main() {
 			"a quarter of the behaviours (and every one with routefail) run with a tunnel routing table over a storage double whose Delete of tunnox:tunnel_waiting:* fails once routefail was scripted",
 			"bidirectional pacing: S 64 KiB + T 32 KiB (and the reverse) at 16383 B/s, free running, ~4 s each",
 			"calls of the driver into the bridge that may hang (Close) run beside the script; a hang shows as Closure / Forgotten observations, not as a driver failure",
+			"hold = the tunnel outlives HeartbeatTimeout 250 ms + CleanupInterval 80 ms (real: 60 s + 15 s) by 1.1 s; with this server as the target's node also the connection manager's IdleTimeout 400 ms (real: 5 min), " +
+				"both ends writing a byte every 100 ms, then one tick of its 30 s sweep (cleanupIdleConnections, bound by go:linkname); a tunnel that is SILENT beyond the idle timeout is not demanded to survive; thorough: 31 s holds with traffic for every way the legs arrive",
+			"this server as the target's node: the source end is the cross-node TCP connection (the driver plays the source's node: listener, TargetReady frame expected first), forgotten = TunnelConnectionManager.GetConnection(tunnel) is nil",
+			"an end whose connection is TCP (xnode target, fwd source) observes closure when it reads end-of-stream or an error, and then closes its side (what a peer node / a client does); a fake connection that is half-closed by the server (CloseWrite) observes closure likewise",
+			"once the target is attached a stalled statistics backend also stalls GetPortMapping (before that it would only delay the set-up of the tunnel, which is not judged)",
 			"the generator follows the limiter variant (error / split waits on n > burst) that a probe on the real code shows; both variants are model-checked",
 		},
 		TrustedBase: []string{"TLC", "spec/BridgeTrace.tla as the reading of the statement", "fake connections and byte comparison in drivers/c02",
-			"go:linkname binding to session.(*SessionManager).startSourceBridge"},
+			"go:linkname binding to session.(*SessionManager).startSourceBridge, (*CrossNodeListener).handleConnection, (*TunnelConnectionManager).cleanupIdleConnections"},
 	})
 }
